@@ -243,6 +243,12 @@ def methods_iteration(fn, op):
 def is_request_version(lr, g, op, vparam, agg=None):
     """operand `op` in g (lookup_route itself or a closure created in it by the aggregate statement `agg`) is
     lookup_route's version parameter, unmodified."""
+    if g is lr:
+        # exact path first: `(*(*env).0)` of an inlined local closure whose capture is `&version` is the parameter itself
+        from .lib_c01 import access_path, VALUE_PRESERVING
+        p = access_path(g, op, VALUE_PRESERVING)
+        if p.kind() == "param" and p.root[1] == vparam and not p.path and not p.calls:
+            return True
     sl = g.slice(op)
     if callee_allow(sl, PLUMBING) or any(a[0] in ("lit", "binop", "agg", "const") for a in sl.atoms):
         return False
